@@ -165,10 +165,25 @@ def switch_programs(draw, big=False):
             line += " break;"
         body.append(line)
     loopwrap = draw(st.booleans())
-    fn = ["static long f(%s x) {" % tname, "\tlong r = 0;"]
+    # the controlling expression: the parameter itself, or an expression whose value has to be converted to T before it is
+    # promoted (cast, assignment, compound assignment, increment: the operand arrives wider than T)
+    form = draw(st.sampled_from(["x", "x", "cast", "assign", "comma-cast"] + (["addassign", "preinc", "postinc-next"] if (T.bits < 32 or not T.signed) and tname != "_Bool" else [])))
+    WT = cm.LLONG if T.signed else cm.ULLONG
+    wname = "long long" if T.signed else "unsigned long long"
+    if form != "x":
+        extra = set()
+        for pv in probes:
+            for dlt in (1 << T.bits, -(1 << T.bits), 1 << 32, (1 << 40) + (1 << T.bits)):
+                if WT.has(pv + dlt):
+                    extra.add(pv + dlt)
+        probes = sorted(set(probes) | set(sorted(extra)[:200]))
+    ctl = {"x": "x", "cast": "(%s)w" % tname, "assign": "x = w", "comma-cast": "(void)0, (%s)w" % tname, "addassign": "x += 1", "preinc": "++x", "postinc-next": "(x++, x)"}[form]
+    fn = ["static long f(%s %s) {" % ((tname, "x") if form == "x" else (wname, "w")), "\tlong r = 0;"]
+    if form != "x":
+        fn.append("\t%s x = (%s)w;" % (tname, tname))
     if loopwrap:
         fn.append("\tfor (int once = 0; once < 1; once++) {")
-    fn.append("\tswitch (x) {")
+    fn.append("\tswitch (%s) {" % ctl)
     fn += body
     fn.append("\t}")
     if loopwrap:
@@ -177,10 +192,14 @@ def switch_programs(draw, big=False):
     fn.append("}")
     src = PROLOGUE + "enum en { EN0, EN1 = 4000000000u };\nenum el { EL0 = -1, EL1 = 0x100000000 };\nenum eul { EUL1 = 0xffffffffffffffff };\n" + "\n".join(fn) + "\nstatic %s probes[] = { %s };\n" % (
         "long long" if T.signed else "unsigned long long", ", ".join(cm.literal(p, cm.LLONG if T.signed else cm.ULLONG) for p in probes)) + \
-        "int main(void) {\n\tfor (unsigned i = 0; i < %d; i++) chk_i64(f((%s)probes[i]));\n\treturn 0;\n}\n" % (len(probes), tname)
+        "int main(void) {\n\tfor (unsigned i = 0; i < %d; i++) chk_i64(f((%s)probes[i]));\n\treturn 0;\n}\n" % (len(probes), tname if form == "x" else wname)
 
     # model
     def run_model(x):
+        if form != "x":
+            x = cm.convert(x, WT, T)
+        if form in ("addassign", "preinc", "postinc-next"):
+            x = cm.convert(cm.convert(x, T, P) + 1, P, T)
         xv = cm.convert(x, T, P)
         entry = None
         dfl = None
@@ -217,7 +236,7 @@ def switch_programs(draw, big=False):
         return r
     expect = ["i %d" % run_model(p) for p in probes]
     return {"src": src, "expect": expect, "t": t, "profile": "switch", "ncases": len(keys), "std": "gnu11",
-            "labels": ["type:" + tname, "default" if default_at is not None else "nodefault", "big" if big else "small"]}
+            "labels": ["type:" + tname, "ctl:" + form, "default" if default_at is not None else "nodefault", "big" if big else "small"]}
 
 
 def switch_check(case, ctx):
